@@ -365,6 +365,9 @@ def create_continuous_elements_index(net, start=0, add_df_to_reindex=None, store
         if elm in ["junction_geodata", "pipe_geodata"]:
             logger.info(f"The table {elm} doesn't need to be included to 'add_df_to_reindex'. It is "
                         f"already included by element==\'{elm.split('_')[0]}\'.")
+        elif elm.startswith("res_") and elm[4:] in elements:
+            # result tables are reindexed together with their element table (see reindex_elements)
+            continue
         else:
             lookups[elm] = create_continuous_element_index(net, elm, start, store_old_index=store_old_index)
     return lookups
